@@ -518,9 +518,13 @@ class BaseSection(base.Sectionable):
         """
         if isinstance(obj, BaseSection):
             self._sections.append(obj)
+            if obj._parent is not None and obj._parent is not self:
+                obj._parent.remove(obj)
             obj._parent = self
         elif isinstance(obj, BaseProperty):
             self._props.append(obj)
+            if obj._parent is not None and obj._parent is not self:
+                obj._parent.remove(obj)
             obj._parent = self
         elif isinstance(obj, Iterable) and not isinstance(obj, str):
             raise ValueError("odml.Section.append: "
@@ -570,6 +574,8 @@ class BaseSection(base.Sectionable):
                 raise ValueError("odml.Section.insert: "
                                  "Section with name '%s' already exists." % obj.name)
 
+            if obj._parent is not None and obj._parent is not self:
+                obj._parent.remove(obj)
             self._sections.insert(position, obj)
             obj._parent = self
         elif isinstance(obj, BaseProperty):
@@ -577,6 +583,8 @@ class BaseSection(base.Sectionable):
                 raise ValueError("odml.Section.insert: "
                                  "Property with name '%s' already exists." % obj.name)
 
+            if obj._parent is not None and obj._parent is not self:
+                obj._parent.remove(obj)
             self._props.insert(position, obj)
             obj._parent = self
         else:
